@@ -83,7 +83,7 @@ pub fn spec() -> PropSpec {
     PropSpec {
         id: "C01",
         level: "exploration",
-        rule: "message sequences (1..12 ops quick, 1..40 thorough) from the palette generator: type ids, stream ids, timestamp deltas (0, small, 0xFFFFFE/0xFFFFFF/0x1000000, 2^31, 2^32-k 'negative', any) and lengths (0, 1..10, around and multiples of the current chunk size, up to 6000; fixed cases at 65536 and 16777214/16777215 bytes) drawn from a small per-case palette so header compression occurs; chunk-size changes (1, 2, 3, 127..129, 4096, 65536, 2^31-1, any) interleaved; force_uncompressed / droppable flags; a generated partition of the byte stream (whole, byte-by-byte, fixed pieces, random cuts, optionally with an empty poll after every piece); sub-check 'roundtrip-kilobyte-chunks': chunk sizes 4095..65536 and messages up to 70000 bytes under cuts / KiB-sized pieces; sub-check 'committed-corpus-replay' re-runs the saved fuzz inputs. Non-trivial = >= 2 messages and (a compressed header or a multi-chunk message or a chunk-size change or a cut inside a chunk header); distinct = distinct (sequence, partition)",
+        rule: "message sequences (1..12 ops quick, 1..40 thorough) from the palette generator: type ids, stream ids, timestamp deltas (0, small, 0xFFFFFE/0xFFFFFF/0x1000000, 2^31, 2^32-k 'negative', any) and lengths (0, 1..10, around and multiples of the current chunk size, up to 6000; fixed cases at 65536 and 16777214/16777215 bytes) drawn from a small per-case palette so header compression occurs; chunk-size changes (1, 2, 3, 127..129, 4096, 65536, 2^31-1, any) interleaved; force_uncompressed / droppable flags; a generated partition of the byte stream (whole, byte-by-byte, fixed pieces, random cuts, optionally with an empty poll after every piece); sub-check 'roundtrip-kilobyte-chunks': chunk sizes 4095..65536 and messages up to 70000 bytes under cuts / KiB-sized pieces; sub-check 'many-message-streams': 28..700 message streams with one video and one audio message each on one serializer; sub-check 'committed-corpus-replay' re-runs the saved fuzz inputs. Non-trivial = >= 2 messages and (a compressed header or a multi-chunk message or a chunk-size change or a cut inside a chunk header); distinct = distinct (sequence, partition)",
         assumptions: vec![
             "type id 1 is produced only through set_max_chunk_size (a raw type-1 payload would be honoured as a chunk-size change the serializer never made)",
             "the receiver follows the documented protocol: get_next_message(&[]) until None, set_max_chunk_size after each decoded Set Chunk Size",
